@@ -1,4 +1,4 @@
-use super::{DecoderError, NeedMore};
+use super::DecoderError;
 use crate::ext::Protocol;
 
 use bytes::Bytes;
@@ -63,7 +63,9 @@ impl Header<Option<HeaderName>> {
 impl Header {
     pub fn new(name: Bytes, value: Bytes) -> Result<Header, DecoderError> {
         if name.is_empty() {
-            return Err(DecoderError::NeedMore(NeedMore::UnexpectedEndOfStream));
+            // An empty name is an invalid header name, not a short read: the
+            // field has been consumed from the block already.
+            return Err(DecoderError::InvalidUtf8);
         }
         if name[0] == b':' {
             match &name[1..] {
